@@ -401,28 +401,4 @@ theorem poly8_transfer (p : Poly8 F64) (x : F64) (h : (p.p64Run ln exp x).ok) :
       (p.f64Run ln exp x).val = (p.mapF F64.val).evalRounded M64 x.val :=
   (p.p64Run ln exp x).transfer h
 
-/-! ### the accumulated side condition of the cubic, spelled out -/
-
-/-- all inputs finite and canonical, and the exact result of each of the four operations of the generated
-scheme (`x·x`, `c₁x+c₀`, `c₃x+c₂`, `t₁·x₂+t₀` on the rounded intermediates) is `0` or in the normal range -/
-def Poly3.Ok64 (p : Poly3 F64) (x : F64) : Prop :=
-  (x.Finite ∧ x.Canon) ∧ (p._0.a0.Finite ∧ p._0.a0.Canon) ∧ (p._0.a1.Finite ∧ p._0.a1.Canon) ∧
-  (p._0.a2.Finite ∧ p._0.a2.Canon) ∧ (p._0.a3.Finite ∧ p._0.a3.Canon) ∧
-  InRange (x.val * x.val) ∧
-  InRange (p._0.a1.val * x.val + p._0.a0.val) ∧
-  InRange (p._0.a3.val * x.val + p._0.a2.val) ∧
-  InRange (rnd64 (p._0.a3.val * x.val + p._0.a2.val) * rnd64 (x.val * x.val)
-    + rnd64 (p._0.a1.val * x.val + p._0.a0.val))
-
-theorem poly3_ok_iff (p : Poly3 F64) (x : F64) : (p.p64Run ln exp x).ok ↔ p.Ok64 x := by
-  show ((((p._0.a3.Finite ∧ p._0.a3.Canon) ∧ (x.Finite ∧ x.Canon) ∧ (p._0.a2.Finite ∧ p._0.a2.Canon) ∧
-          InRange (p._0.a3.val * x.val + p._0.a2.val)) ∧
-        ((x.Finite ∧ x.Canon) ∧ (x.Finite ∧ x.Canon) ∧ InRange (x.val * x.val)) ∧
-        ((p._0.a1.Finite ∧ p._0.a1.Canon) ∧ (x.Finite ∧ x.Canon) ∧ (p._0.a0.Finite ∧ p._0.a0.Canon) ∧
-          InRange (p._0.a1.val * x.val + p._0.a0.val)) ∧
-        InRange (rnd64 (p._0.a3.val * x.val + p._0.a2.val) * rnd64 (x.val * x.val)
-          + rnd64 (p._0.a1.val * x.val + p._0.a0.val)))) ↔ _
-  unfold Poly3.Ok64
-  tauto
-
 end demo
